@@ -512,6 +512,11 @@ impl Harness for C05 {
             j.params["thorough"] = json!(t);
         }
 
+        let jobs = {
+            let mut j: Vec<Job> = jobs;
+            j.insert(0, Job::new("builders", json!({"kind": "builders"})));
+            j
+        };
         Plan {
             jobs,
             budget_s: if t { 2700 } else { 40 },
@@ -519,6 +524,7 @@ impl Harness for C05 {
             // about 1/10 of what the complete quick tier reaches (see NOTES.md), so that a run cut
             // short by the wall budget on a busy machine still passes, and a vacuous one does not
             floors: vec![
+                ("builder_chains", 5),
                 ("root_split", 1_000_000),
                 ("trees_2plus_levels", 150_000),
                 ("trees_4plus_levels", 5_000),
@@ -537,6 +543,7 @@ impl Harness for C05 {
                 ("argsort_unstable_among_ties", 100_000),
             ],
             bounds: json!({
+                "builders": mc_sc::builders::BOUNDS,
                 "seed_variant": seed % 8,
                 "lattice_p1": format!("every x in A^n, y in B^n (|A|=|B|=3; classification: >= 2 classes, label maps {:?}), n = 2..{}", data::LABEL_MAPS, if t { 7 } else { 5 }),
                 "lattice_p2": format!("every x in A^(2n), y in B^n, n = 2..{}", if t { 4 } else { 3 }),
@@ -560,6 +567,7 @@ impl Harness for C05 {
             "sorttree" => run_sorttree(job, seed),
             "struct" => run_struct(job, seed, job.b("thorough")),
             "argsort" => run_argsort(job, seed),
+            "builders" => mc_sc::builders::run("C05"),
             other => panic!("unknown job kind {}", other),
         }
     }
